@@ -46,6 +46,7 @@ def boom(*a, **k):
 class Gen:
     def __init__(self, rng):
         self.rng = rng
+        self.opts = {}
         self.k = 0
         self.depth_of_marker = 0
         self.multiline_above = False
@@ -56,6 +57,12 @@ class Gen:
 
     def filler(self, in_macro):
         r = self.rng
+        if self.opts.get("line_statement_prefix") and r.random() < 0.3:
+            self.multiline_above = True
+            k = self.fresh()
+            return r.choice([["%% set lsv@ = 1".replace("@", str(k)), "%# a line comment"],
+                             ["%% if true", "ls text {{ 1 }}", "%% endif"],
+                             ["%% for lsi@ in range(2)".replace("@", str(k)), "x", "%% endfor"]])
         c = r.randint(0, 9)
         if c == 0:
             return ["plain text"]
@@ -163,12 +170,25 @@ class Gen:
         (["{% include [boom(), 'x'] ignore missing %}"], 0),
         (["{% set sa@, sb@ = boom() %}"], 0), (["{{ 1 if boom() else 2 }}"], 0), (["{{ [1, 2][boom()] }}"], 0),
         (["{{ 'x'", "   ~ 'y' }}", "{{ boom() }}"], 2),
+        # extensions (i18n, do): expressions inside extension tags
+        (["{% trans tu@=boom() %}hi {{ tu@ }}{% endtrans %}"], 0), (["{% trans tc@=1, tu@=boom() %}", "hi {{ tu@ }}", "{% endtrans %}"], 0),
+        (["{% trans count=boom() %}one{% pluralize %}many {{ count }}{% endtrans %}"], 0),
+        (["{% do boom() %}"], 0), (["{% do [1,", "  boom()] %}"], 0), (["{{ _('x') }}{{ gettext(boom()) }}"], 0),
     ]
     # (lines, index of the line that carries the offending token)
     SYNTAX_MARKERS = [
         (["{% frobnicate %}"], 0), (["{{ a b }}"], 0), (["{{ a ? b }}"], 0), (['{{ "unclosed }}'], 0), (["{% if %}x{% endif %}"], 0),
         (["{{ foo(1,", "      2 3) }}"], 1), (["{% if a", "   b %}x{% endif %}"], 1), (["{{ 1 + }}"], 0), (["{% for %}"], 0),
         (["text {{ 1 2 }}"], 0), (["{% set %}"], 0), (["{{ [1, 2 }}"], 0),
+        # errors raised by the code generator (TemplateAssertionError) and by extensions
+        (["{{ zz|nofilterhere }}"], 0), (["{{ zz", "   |nofilterhere }}"], 1), (["{% filter nofilterhere %}x{% endfilter %}"], 0),
+        (["{{ zz is notesthere }}"], 0), (["{{ [1]|select('odd')|map('nofilterhere2')|list|nofilterhere }}"], 0),
+        (["{% block dup@ %}a{% endblock %}", "", "{% block dup@ %}b{% endblock %}"], 2),
+        (["{% macro brk@() %}{% break %}{% endmacro %}"], 0), (["{% macro cnt@() %}", "{% continue %}", "{% endmacro %}"], 1),
+        (["{% macro bad@(a, b=1, c) %}{% endmacro %}"], 0), (["{% from 'nowhere' import a, %}"], 0),
+        (["{% trans %}{% if x %}{% endtrans %}"], 0), (["{% trans %}", "hello {{ user.name }}", "{% endtrans %}"], 1),
+        (["{% trans %}a{% pluralize %}b{% endtrans %}"], 0), (["{% trans %}", "a", "{% pluralize nope %}", "b{% endtrans %}"], 2),
+        (["{% do %}"], 0), (["{% set a.b.c = 1 %}"], 0), (["{% for loop.x in y %}{% endfor %}"], 0),
     ]
 
     def template(self, depth, marker_lines, mark_index, prelude=()):
@@ -213,12 +233,22 @@ class Gen:
 
     def case(self):
         r = self.rng
+        self.opts = {"trim_blocks": r.random() < 0.4, "lstrip_blocks": r.random() < 0.4, "keep_trailing_newline": r.random() < 0.3,
+                     "enable_async": r.random() < 0.25, "optimized": r.random() < 0.8, "autoescape": r.random() < 0.3}
+        if r.random() < 0.2:
+            self.opts["line_statement_prefix"] = "%%"
+            self.opts["line_comment_prefix"] = "%#"
+        self.extra = {"env_class": r.choice(["plain", "plain", "sandboxed", "immutable", "native"]),
+                      "entry": r.choice(["render", "render", "generate", "stream", "module"] + (["render_async", "generate_async"] if self.opts["enable_async"] else [])),
+                      "history": r.choice(["none", "none", "twice", "bytecode-cache", "overlay"])}
         self.k = 0
         self.multiline_above = False
         self.depth_of_marker = 0
         syntax = r.random() < 0.4
         if syntax:
             mlines, midx = r.choice(self.SYNTAX_MARKERS)
+            kk = str(self.fresh() + 700)
+            mlines = [ln.replace("@", kk) for ln in mlines]
         else:
             mlines, midx = r.choice(self.RUNTIME_MARKERS)
             kk = str(self.fresh() + 900)
@@ -275,15 +305,14 @@ class Gen:
             T["main"] = ["{% extends 'parent' %}", "{% block content %}", "child before", "{{ super() }}", "child after", "{% endblock %}"]
             where = "parent"
         nl = r.choice(["\n", "\n", "\r\n", "\r"])
-        opts = {"trim_blocks": r.random() < 0.4, "lstrip_blocks": r.random() < 0.4, "keep_trailing_newline": r.random() < 0.3,
-                "enable_async": r.random() < 0.2}
+        opts = self.opts
         srcs = {}
         for name, lines in T.items():
             if r.random() < 0.5:
                 lines = self.modifiers(lines, None)
             srcs[name] = nl.join(lines) + (nl if r.random() < 0.7 else "")
         return {"templates": srcs, "options": opts, "newline": {"\n": "LF", "\r\n": "CRLF", "\r": "CR"}[nl], "kind": "syntax" if syntax else "runtime",
-                "shape": shape, "where": where, "line": mark, "marker": mlines,
+                "shape": shape, "where": where, "line": mark, "marker": mlines, "extra": self.extra,
                 "nontrivial": self.depth_of_marker >= 1 or self.multiline_above}
 
     def resolve(self, raw, mark_index):
@@ -299,7 +328,10 @@ class Gen:
 
 
 # ------------------------------------------------------------------------------ real engine
-def make_env(jinja2, case, recorder=None):
+EXTENSIONS = ["jinja2.ext.i18n", "jinja2.ext.do", "jinja2.ext.loopcontrols"]
+
+
+def make_env(jinja2, case, recorder=None, bytecode_cache=None):
     srcs = case["templates"]
 
     def load(name):
@@ -307,11 +339,36 @@ def make_env(jinja2, case, recorder=None):
             return srcs[name], "/tpl/" + name, lambda: True
         return None
 
-    env = jinja2.Environment(loader=jinja2.FunctionLoader(load), **case["options"])
+    kind = case.get("extra", {}).get("env_class", "plain")
+    if kind == "sandboxed":
+        from jinja2.sandbox import SandboxedEnvironment as E
+    elif kind == "immutable":
+        from jinja2.sandbox import ImmutableSandboxedEnvironment as E
+    elif kind == "native":
+        from jinja2.nativetypes import NativeEnvironment as E
+    else:
+        E = jinja2.Environment
+    env = E(loader=jinja2.FunctionLoader(load), extensions=EXTENSIONS, bytecode_cache=bytecode_cache, **case["options"])
+    env.install_null_translations(newstyle=False)
     env.globals["boom"] = boom      # a global: also visible inside imported macros
     if recorder is not None:
         env.code_generator_class = recorder
     return env
+
+
+def memory_bytecode_cache(jinja2):
+    class MemCache(jinja2.BytecodeCache):
+        def __init__(self):
+            self.store = {}
+
+        def load_bytecode(self, bucket):
+            if bucket.key in self.store:
+                bucket.bytecode_from_string(self.store[bucket.key])
+
+        def dump_bytecode(self, bucket):
+            self.store[bucket.key] = bucket.bytecode_to_string()
+
+    return MemCache()
 
 
 def make_recorder(jinja2, store):
@@ -334,12 +391,31 @@ def make_recorder(jinja2, store):
     return Rec
 
 
-def observe(jinja2, case, recorder=None):
+def run_entry(env, entry):
+    import asyncio
+    t = env.get_template("main")
+    if entry == "generate":
+        return "".join(str(x) for x in t.generate())
+    if entry == "stream":
+        return "".join(str(x) for x in t.stream())
+    if entry == "module":
+        t.make_module()
+        return t.render()
+    if entry == "render_async":
+        return asyncio.run(t.render_async())
+    if entry == "generate_async":
+        async def collect():
+            return "".join([str(x) async for x in t.generate_async()])
+        return asyncio.run(collect())
+    return t.render()
+
+
+def observe(jinja2, case, recorder=None, env=None):
     """-> dict(kind=..., template=..., line=..., tb=(file, line) or None)"""
-    env = make_env(jinja2, case, recorder)
+    env = env or make_env(jinja2, case, recorder)
     try:
-        out = env.get_template("main").render()
-        return {"kind": "rendered", "text": out[:60]}
+        out = run_entry(env, case.get("extra", {}).get("entry", "render"))
+        return {"kind": "rendered", "text": str(out)[:60]}
     except Boom as e:
         frames = [f for f in traceback.extract_tb(e.__traceback__) if f.filename.startswith("/tpl/")]
         if not frames:
@@ -353,6 +429,25 @@ def observe(jinja2, case, recorder=None):
         frames = [f for f in traceback.extract_tb(e.__traceback__) if f.filename.startswith("/tpl/")]
         return {"kind": "other:" + type(e).__name__, "message": str(e)[:100],
                 "tb": (frames[-1].filename, frames[-1].lineno) if frames else None}
+
+
+def observe_history(jinja2, case):
+    """the same set observed after some history on the environment: a second render of the cached template, a
+    template loaded from a shared bytecode cache by a second environment, an overlay of the environment"""
+    h = case.get("extra", {}).get("history", "none")
+    if h == "twice":
+        env = make_env(jinja2, case)
+        observe(jinja2, case, env=env)
+        return observe(jinja2, case, env=env)
+    if h == "bytecode-cache":
+        bc = memory_bytecode_cache(jinja2)
+        observe(jinja2, case, env=make_env(jinja2, case, bytecode_cache=bc))
+        return observe(jinja2, case, env=make_env(jinja2, case, bytecode_cache=bc))
+    if h == "overlay":
+        env = make_env(jinja2, case)
+        observe(jinja2, case, env=env)
+        return observe(jinja2, case, env=env.overlay(cache_size=0))
+    return None
 
 
 def judge(case, obs):
@@ -485,14 +580,29 @@ def run(ctx):
         except Exception as e:  # noqa
             obs = {"kind": "harness-error:" + type(e).__name__, "message": str(e)[:100]}
         why = judge(case, obs)
-        pub = {k: case[k] for k in ("templates", "options", "newline", "kind", "shape", "where", "line", "marker")}
+        pub = {k: case[k] for k in ("templates", "options", "newline", "kind", "shape", "where", "line", "marker", "extra")}
         ctx.case(sample=dict(pub, observed=obs) if (case["nontrivial"] and len(ctx.samples) < 4 and idx % 97 == 0) else None,
                  key=("case", repr(sorted(case["templates"].items())), repr(sorted(case["options"].items()))) if case["nontrivial"] else None)
         ctx.count(f"{case['kind']}/{case['shape']}/{case['newline']}")
+        ctx.count("env/" + case["extra"]["env_class"])
+        ctx.count("entry/" + case["extra"]["entry"])
         if why:
             ctx.reject(dict(pub, observed=obs), why, signature(case))
         else:
             ctx.validated()
+        try:
+            obs2 = observe_history(jinja2, case)
+        except Exception as e:  # noqa
+            obs2 = {"kind": "harness-error:" + type(e).__name__, "message": str(e)[:100]}
+        if obs2 is not None:
+            ctx.case(key=("history", case["extra"]["history"], idx))
+            ctx.count("history/" + case["extra"]["history"])
+            why2 = judge(case, obs2)
+            if why2 and not why:
+                ctx.reject(dict(pub, observed=obs2, history=case["extra"]["history"]), "after history: " + why2,
+                           signature(case) + ":history:" + case["extra"]["history"])
+            elif not why2:
+                ctx.validated()
         # K-gen on every template of the set that was compiled
         env2 = make_env(jinja2, case, Rec)
         store.clear()
